@@ -124,6 +124,13 @@ func (t *imp) block(ss []ast.Stmt, topLevel bool) string {
 				}
 				sb.WriteString(t.assign(as))
 			}
+			// `if c { ...; continue }` in a loop body: the rest of the body is the else branch
+			if n := len(s.Body.List); n > 0 && s.Else == nil && !topLevel {
+				if br, ok := s.Body.List[n-1].(*ast.BranchStmt); ok && br.Tok == token.CONTINUE && br.Label == nil {
+					fmt.Fprintf(&sb, "if %s then (%s) else (%s)", t.expr(s.Cond), t.block(s.Body.List[:n-1], false), t.block(ss[i+1:], false))
+					return sb.String()
+				}
+			}
 			els := t.res
 			if s.Else != nil {
 				eb, ok := s.Else.(*ast.BlockStmt)
